@@ -265,7 +265,11 @@ func (c *Broadcaster) writeFrame(socket *Conn, frame *bytes.Buffer) error {
 	}
 	verifSched("b.write", socket)
 	var err = internal.WriteN(socket.conn, frame.Bytes())
-	_, _ = socket.cpsWindow.Write(c.payload)
+	// The shared frame may have been built uncompressed (under a connection with a higher threshold):
+	// only a compressed message (RSV1 set) enters the compression context.
+	if frame.Bytes()[0]&64 != 0 {
+		_, _ = socket.cpsWindow.Write(c.payload)
+	}
 	return err
 }
 
